@@ -226,9 +226,21 @@ func VerifC06Prune() {
 	pre := vInstallKAState(e, cid, true, extra)
 	nk := pre.nk
 	now := e.ctx.BlockTime()
+	// another launched consumer whose store keys sort before cid's: it retains the
+	// first extra key (whatever that key is on cid) with its own pruning time
+	other := "0"
+	e.k.SetConsumerPhase(e.ctx, other, types.CONSUMER_PHASE_LAUNCHED)
+	otherTs := vTimeIn("other_prunets")
+	otherAddr := types.NewConsumerConsAddress(vConsAddr(vKeyIdent(nv, nv)))
+	e.k.AppendConsumerAddrsToPrune(e.ctx, other, otherTs, otherAddr)
+	e.k.SetValidatorByConsumerAddr(e.ctx, other, otherAddr, types.NewProviderConsAddress(vConsAddr(0)))
 	e.k.PruneKeyAssignments(e.ctx, cid)
 	vh.Reach("after-prune")
 	post := vReadKAState(e, cid, nv, nk)
+	olst := e.k.GetConsumerAddrsToPrune(e.ctx, other, otherTs)
+	vh.Assert(len(olst.Addresses) == 1, "C06.prune.other-consumers-entries-kept")
+	_, ofound := e.k.GetValidatorByConsumerAddr(e.ctx, other, otherAddr)
+	vh.Assert(ofound, "C06.prune.other-consumers-keys-still-attributable")
 	for v := 0; v < nv; v++ {
 		vh.Assert(post.cur[v] == pre.cur[v], "C06.prune.current-assignments-kept")
 	}
@@ -294,5 +306,70 @@ func VerifC05NewValidatorHook() {
 		vh.Assert(known, "C05.hook.refuses-only-keys-known-on-an-active-consumer")
 	} else {
 		vh.Assert(!known, "C05.hook.new-validator-cannot-reuse-a-key-known-on-an-active-consumer")
+	}
+}
+
+// VerifC05ValidatorRemoved: the staking hook AfterValidatorRemoved for
+// validator 0 from any invariant state of two consumers: every assignment of
+// the removed validator (record and reverse index) is gone on every consumer,
+// so its keys are free again; other validators' records, retained keys and the
+// invariant are untouched.
+func VerifC05ValidatorRemoved() {
+	nv := vh.Bound("vals", 2)
+	extra := vh.Bound("extrakeys", 2)
+	e := newVEnv(nv)
+	cons := []string{"1", "10"}
+	pres := make([]vKAState, len(cons))
+	for i, cid := range cons {
+		launched := vh.ConcretizeInt(vh.Int(vh.Sprintf("launched%d", i)), 0, 1) == 1
+		if launched {
+			e.k.SetConsumerPhase(e.ctx, cid, types.CONSUMER_PHASE_LAUNCHED)
+		} else {
+			e.k.SetConsumerPhase(e.ctx, cid, types.CONSUMER_PHASE_INITIALIZED)
+		}
+		if i == 0 {
+			pres[i] = vInstallKAState(e, cid, launched, extra)
+		} else {
+			// second consumer: validator 0 may have the first extra key assigned
+			nk := nv + extra
+			s := vKAState{nv: nv, nk: nk, cur: make([]int, nv), byAddr: make([]int, nk), pruneTs: make([]time.Time, nk), hasPrune: make([]bool, nk)}
+			for v := range s.cur {
+				s.cur[v] = -1
+			}
+			for k := range s.byAddr {
+				s.byAddr[k] = -1
+			}
+			if vh.ConcretizeInt(vh.Int("assigned_on_second"), 0, 1) == 1 {
+				s.cur[0], s.byAddr[nv] = nv, 0
+				e.k.SetValidatorConsumerPubKey(e.ctx, cid, types.NewProviderConsAddress(vConsAddr(0)), vPubKey(vKeyIdent(nv, nv)))
+				e.k.SetValidatorByConsumerAddr(e.ctx, cid, types.NewConsumerConsAddress(vConsAddr(vKeyIdent(nv, nv))), types.NewProviderConsAddress(vConsAddr(0)))
+			}
+			pres[i] = s
+		}
+	}
+	err := e.k.Hooks().AfterValidatorRemoved(e.ctx, vConsAddr(0), vOperator(0))
+	vh.Reach("after-removed")
+	vh.Assert(err == nil, "C05.removed.no-error")
+	for i, cid := range cons {
+		pre := pres[i]
+		post := vReadKAState(e, cid, nv, pre.nk)
+		vh.Assert(post.cur[0] == -1, "C05.removed.assignment-record-of-removed-validator-deleted")
+		if pre.cur[0] >= 0 {
+			vh.Assert(post.byAddr[pre.cur[0]] == -1, "C05.removed.key-of-removed-validator-no-longer-resolves")
+		}
+		for v := 1; v < nv; v++ {
+			vh.Assert(post.cur[v] == pre.cur[v], "C05.removed.other-validators-untouched")
+		}
+		for k := 0; k < pre.nk; k++ {
+			if k != pre.cur[0] {
+				vh.Assert(post.byAddr[k] == pre.byAddr[k], "C05.removed.other-keys-untouched")
+			}
+			// a key that looks free (no reverse index) is nobody's current key
+			if post.byAddr[k] == -1 {
+				for v := 0; v < nv; v++ {
+					vh.Assert(post.cur[v] != k, "C05.inv.I1-current-key-indexed")
+				}
+			}
+		}
 	}
 }
